@@ -494,6 +494,35 @@ func drvConfigs(r *rng, thorough bool) []drvCfg {
 	return out
 }
 
+// sackOddOptions builds ACKs from the target on the run's flow whose SACK option lengths are not 2+8k.
+func sackOddOptions(c drvCfg, s sendRecD) []reply {
+	var out []reply
+	var e [8]byte
+	le := c.initSeq + uint32(s.ttl)
+	binary.BigEndian.PutUint32(e[0:], le)
+	binary.BigEndian.PutUint32(e[4:], le+1)
+	mk := func(tag string, opt []byte) {
+		for len(opt)%4 != 0 {
+			opt = append(opt, 1)
+		}
+		seg := buildTCP4(tcpHdr{sport: uint16(c.dport), dport: uint16(c.sport), seq: c.initAck, ack: c.initSeq, flags: 0x10, win: 512, opts: opt}, nil, c.t4(), c.l4())
+		out = append(out, reply{tag, buildIP4(ip4Hdr{ttl: 60, proto: 6, src: c.t4(), dst: c.l4()}, seg)})
+	}
+	for r := 1; r <= 7; r++ {
+		opt := append([]byte{5, byte(2 + 8 + r)}, e[:]...)
+		for k := 0; k < r; k++ {
+			opt = append(opt, byte(0xa0+k))
+		}
+		mk(fmt.Sprintf("sack_block_plus_%d_stray", r), opt)
+	}
+	mk("sack_block_then_short_sack", append(append([]byte{5, 10}, e[:]...), 5, 4, 0xde, 0xad))
+	mk("sack_short_then_block", append([]byte{5, 6, 1, 2, 3, 4, 5, 10}, e[:]...))
+	mk("sack_block_then_empty_sack", append(append([]byte{5, 10}, e[:]...), 5, 2))
+	mk("sack_only_partial", []byte{5, 7, 1, 2, 3, 4, 5})
+	mk("sack_two_blocks_plus_4_stray", append(append(append([]byte{5, 22}, e[:]...), e[:]...), 9, 9, 9, 9))
+	return out
+}
+
 // zeroCkSport returns the source port for which the UDP checksum of the probe for ttl computes to zero, from the
 // packet layout alone (no gopacket): pseudo-header, ports, length and payload sum to a multiple of 0xffff.
 func zeroCkSport(c drvCfg, ttl int) int {
@@ -673,6 +702,13 @@ func runDrvConfig(t *testing.T, c drvCfg, r *rng, w *caseWriter, tags map[string
 				full := thorough || i == 0
 				for _, p := range perturb(r, g.frame, full && (i == 0)) {
 					d.recv(p.frame, p.tag+":"+g.tag)
+				}
+			}
+			// SACK options whose data is not a whole number of 8-byte blocks (gopacket only checks 2 <= length <= remaining):
+			// a genuine block followed by 1..7 stray bytes, a second SACK option too short to hold a block, an empty one
+			if c.variant == vSack {
+				for _, m := range sackOddOptions(c, s) {
+					d.recv(m.frame, m.tag)
 				}
 			}
 			// replies to TTLs not probed yet: quote a forged probe for ttl+1
